@@ -122,6 +122,17 @@ class MEDDLY::common_dfs_by_events_mt : public saturation_operation {
       return c;
     }
 
+    // In a fully-reduced forest, a recFire() result can skip levels
+    // below level k; the events of those levels still have to be fired.
+    inline node_handle saturateSkipped(node_handle n, int k)
+    {
+      if (!resF->isFullyReduced() || resF->isTerminalNode(n)) return n;
+      if (resF->getNodeLevel(n) >= k) return n;
+      node_handle s = satop->saturate(n, k);
+      resF->unlinkNode(n);
+      return s;
+    }
+
   protected:
     binary_operation* mddUnion;
     binary_operation* mxdIntersection;
@@ -129,6 +140,7 @@ class MEDDLY::common_dfs_by_events_mt : public saturation_operation {
 
     pregen_relation* rel;
     forest* relF;
+    saturation_by_events_op* satop;
 
   protected:
     class indexq {
@@ -369,6 +381,7 @@ MEDDLY::common_dfs_by_events_mt::common_dfs_by_events_mt(
     mddUnion = nullptr;
     mxdIntersection = nullptr;
     mxdDifference = nullptr;
+    satop = nullptr;
     freeqs = 0;
     freebufs = 0;
 
@@ -418,7 +431,9 @@ void MEDDLY::common_dfs_by_events_mt
     printf("done.\n");
   }
   saturation_by_events_op* so = new saturation_by_events_op(this, argF, resF);
+  satop = so;
   so->compute(a, c);
+  satop = nullptr;
 
   // Cleanup
   while (freeqs) {
@@ -555,7 +570,8 @@ void MEDDLY::forwd_dfs_by_events_mt::saturateHelper(unpacked_node& nb)
         unsigned j = Rp->index(jz);
         if (-1==nb.down(j)) continue;  // nothing can be added to this set
 
-        node_handle rec = recFire(nb.down(i), Rp->down(jz));
+        node_handle rec = saturateSkipped(
+            recFire(nb.down(i), Rp->down(jz)), nb.getLevel()-1);
 
         if (rec == 0) continue;
         if (rec == nb.down(j)) {
@@ -647,7 +663,7 @@ MEDDLY::node_handle MEDDLY::forwd_dfs_by_events_mt::recFire(
     // that's an important special case that we can handle quickly.
 
     for (unsigned i=0; i<rSize; i++) {
-      nb->setFull(i, recFire(A->down(i), mxd));
+      nb->setFull(i, saturateSkipped(recFire(A->down(i), mxd), rLevel-1));
       // nb->d_ref(i) = recFire(A->down(i), mxd);
     }
 
@@ -681,7 +697,8 @@ MEDDLY::node_handle MEDDLY::forwd_dfs_by_events_mt::recFire(
         // ok, there is an i->j "edge".
         // determine new states to be added (recursively)
         // and add them
-        node_handle newstates = recFire(A->down(i), Rp->down(jz));
+        node_handle newstates = saturateSkipped(
+            recFire(A->down(i), Rp->down(jz)), rLevel-1);
         if (0==newstates) continue;
         if (0==nb->down(j)) {
           nb->setFull(j, newstates);
@@ -796,7 +813,8 @@ void MEDDLY::bckwd_dfs_by_events_mt::saturateHelper(unpacked_node& nb)
           if (0==expl->data[j]) continue;
           if (0==nb.down(j))       continue;
           // We have an i->j edge to explore
-          node_handle rec = recFire(nb.down(j), Rp->down(jz));
+          node_handle rec = saturateSkipped(
+              recFire(nb.down(j), Rp->down(jz)), nb.getLevel()-1);
 
           if (0==rec) continue;
           if (rec == nb.down(i)) {
@@ -880,7 +898,7 @@ MEDDLY::node_handle MEDDLY::bckwd_dfs_by_events_mt::recFire(node_handle mdd,
     // Skipped levels in the MXD,
     // that's an important special case that we can handle quickly.
     for (unsigned i=0; i<rSize; i++) {
-      nb->setFull(i, recFire(A->down(i), mxd));
+      nb->setFull(i, saturateSkipped(recFire(A->down(i), mxd), rLevel-1));
       // nb->d_ref(i) = recFire(A->down(i), mxd);
     }
   } else {
@@ -913,7 +931,8 @@ MEDDLY::node_handle MEDDLY::bckwd_dfs_by_events_mt::recFire(node_handle mdd,
         // ok, there is an i->j "edge".
         // determine new states to be added (recursively)
         // and add them
-        node_handle newstates = recFire(A->down(j), Rp->down(jz));
+        node_handle newstates = saturateSkipped(
+            recFire(A->down(j), Rp->down(jz)), rLevel-1);
         if (0==newstates) continue;
         if (0==nb->down(i)) {
           nb->setFull(i, newstates);
